@@ -1,4 +1,4 @@
-import Httpcache.Proofs.Url
+import Httpcache.Proofs.UrlKey
 /-
 C03 — A stored response is reused only for an equivalent URI and a plain GET.
 
@@ -9,13 +9,18 @@ C03 — A stored response is reused only for an equivalent URI and a plain GET.
    scheme, host (including IPv6 literals), port, path bytes or query bytes never receive each
    other's responses."
 
-Proved here: the percent-encoding normal form of the key is the RFC one for EVERY byte string
-(`pct_norm_is_rfc`), only ASCII unreserved bytes are ever decoded (`unreserved_is_ascii`), the
-method / Range gate (`method_gate`), and that every key an exchange reads or writes is derived
-from the request's URL key (`store_keys_from_url_key`). PARTIAL: that the whole key string equals
-the Spec normal form (`Spec.urlNorm`, authority splitting) and determines its components is
-checked by the correspondence (grammar-generated URL pairs) and the C03 monitor on the
-implementation, not yet by a theorem; dot-segment removal and url.Parse are stdlib glue.
+Proved here: for ALL pairs of well-formed http(s) URLs the keys are equal exactly when scheme,
+case-folded host, effective port, normalised path and normalised query are equal
+(`same_key_iff_equivalent`: injectivity and completeness of the key); the key is the RFC 3986 normal
+form `Spec.urlNorm` that the C03 monitor evaluates on the implementation (`key_is_rfc_normal_form`);
+the percent-encoding normal form is the RFC one for EVERY byte string (`pct_norm_is_rfc`), only
+ASCII unreserved bytes are ever decoded (`unreserved_is_ascii`); the method / Range gate
+(`method_gate`); every exchange looks up the index under the request's URL key
+(`lookup_uses_url_key`). Not carried by a theorem: url.Parse, ResolveReference and dot-segment removal
+(stdlib; the model receives their results — correspondence, grammar-generated URL pairs); hosts that
+are not RFC 3986 hosts (a reg-name containing ':' such as "a:80:443", which url.Parse accepts) are
+excluded by `WFUrl.hostNoPort`: for those "https://a:80:443/" and "https://a:80/" do share a key, in
+the code and in `Spec.urlNorm` alike (both read the last ":digits" as the port).
 -/
 namespace Httpcache.C03
 open Httpcache
@@ -78,6 +83,41 @@ theorem lookup_uses_url_key (cfg : Cfg) (t0 : Int) (req : Req) (tr : List Step) 
   simp only [hu, Bool.not_true, Bool.false_eq_true, ↓reduceIte] at h
   cases h with
   | getRefs a h1 => exact ⟨a, _, rfl⟩
+
+/-- Injectivity and completeness of the primary cache key, for all pairs of well-formed http(s) URLs:
+    the keys coincide exactly when the URLs are equivalent under RFC 3986 §6.2.2–6.2.3 (scheme; host up
+    to ASCII case; port up to the scheme default; path and query up to percent-encoding case and
+    escapes of unreserved ASCII; empty path = "/"). Hence URLs that differ in scheme, host (IPv6
+    literals included), port, path bytes or query bytes never share an index. -/
+theorem same_key_iff_equivalent (s1 h1 p1 q1 s2 h2 p2 q2 : Str) (w1 : WFUrl s1 h1 p1 q1) (w2 : WFUrl s2 h2 p2 q2) :
+    makeURLKeyOf s1 h1 p1 q1 [] = makeURLKeyOf s2 h2 p2 q2 [] ↔
+    (s1 = s2 ∧ keyHost h1 = keyHost h2 ∧ effPort s1 h1 = effPort s2 h2 ∧
+     normalizePercentEncoding (keyPath s1 p1) = normalizePercentEncoding (keyPath s2 p2) ∧
+     normalizePercentEncoding q1 = normalizePercentEncoding q2) := by
+  constructor
+  · exact key_injective _ _ _ _ _ _ _ _ w1 w2
+  · rintro ⟨hs, eh, ep, epath, eq⟩
+    subst hs
+    exact key_complete _ _ _ _ _ _ _ eh ep epath eq
+
+/-- the key is the normal form of Spec/Defs.lean, which is what the monitor compares on the trace -/
+theorem key_is_rfc_normal_form (s h p q : Str) (hs : s = (str% "http") ∨ s = (str% "https")) :
+    makeURLKeyOf s h p q [] = Spec.urlNorm s h p q := key_eq_spec s h p q hs
+
+/-- the hypotheses are satisfiable by hosts of both RFC 3986 shapes (non-vacuity), and the two
+    defects of the pinned tree are excluded by the theorem, not only by examples -/
+example : WFUrl (str% "https") (str% "[::1]:8443") (str% "/a%2fb/") (str% "x=%e9") where
+  scheme := Or.inr rfl
+  hostNoSlash := by decide
+  pathAbs := Or.inr ⟨_, rfl⟩
+  pathNoQ := by decide
+  hostNoPort := noPortSuffix_of_bracket _ (by decide)
+example : WFUrl (str% "http") (str% "A.test:80") [] (str% "q=1") where
+  scheme := Or.inl rfl
+  hostNoSlash := by decide
+  pathAbs := Or.inl rfl
+  pathNoQ := by decide
+  hostNoPort := noPortSuffix_of_no_colon _ (by decide)
 
 /-- Regression examples for the two defects of the pinned tree (tests, not the general claim):
     %E9 stays an escape (it used to become the UTF-8 bytes of U+00E9), %7e is decoded, the
